@@ -24,7 +24,7 @@ EXPLANATION = (
     "carries the time-step counter; the dap column carries the state's dap. C07.d: the planting / harvest year lists "
     "derived at initialisation are not mutated in place while another name aliases the same list. C07.e: crop_mature is set only under `<clock> >= crop.Maturity` "
     "where the clock's normal form is the state's own days-after-planting (under CalendarType == 1) or cumulative degree days (under "
-    "CalendarType == 2) of that day - not a delay-adjusted or otherwise shifted clock - and both calendar types are covered. C07.f: crop_mature, crop_dead, harvest_flag and dap are cleared on every path of the season reset (literal setattr loops are expanded). C07.g: the growing-season window excludes the step that starts on the harvest date (the summary is written on the step that ends on it), so the season's length does not depend on the off-season flag. C07.h: the day offset from which a missing harvest date is derived (kept as month/day; seasons recur yearly) has a constant bound <= 364 - a larger offset wraps round the year and cuts every season short. C07.j: both 'another season follows' tests of update_time have the normal form season_counter < n_seasons - 1 on the clock's current counter. C07.k: for a crop whose season lies within a calendar year the last calendar year of the window is dropped from the schedule exactly when the end date (month/day) is on or before the planting day - the test is resolved through locals and negations, its two sides by provenance (end date vs planting date, not the start or harvest date). C07.l: growing_season = True is reached only under planting date reached, harvest date not reached, crop not mature and crop not dead (C07.g now reads chained comparisons and comparisons held in locals too). NOT decided: the remaining "
+    "CalendarType == 2) of that day - not a delay-adjusted or otherwise shifted clock - and both calendar types are covered. C07.f: crop_mature, crop_dead, harvest_flag and dap are cleared on every path of the season reset (literal setattr loops are expanded). C07.g: the growing-season window excludes the step that starts on the harvest date (the summary is written on the step that ends on it), so the season's length does not depend on the off-season flag. C07.h: the day offset from which a missing harvest date is derived (kept as month/day; seasons recur yearly) has a constant bound <= 364 - a larger offset wraps round the year and cuts every season short. C07.j: both 'another season follows' tests of update_time have the normal form season_counter < n_seasons - 1 on the clock's current counter. C07.k: for a crop whose season lies within a calendar year the last calendar year of the window is dropped from the schedule exactly when the end date (month/day) is on or before the planting day - the test is resolved through locals and negations, its two sides by provenance (end date vs planting date, not the start or harvest date). C07.l: growing_season = True is reached only under planting date reached, harvest date not reached, crop not mature and crop not dead (C07.g now reads chained comparisons and comparisons held in locals too). C07.m (the run always terminates - inner loops; T-LOOP, shared with C16.n): every while loop has a visible reason to stop (stepped counter against an invariant bound on every cycle, countdown, counter-driven flag, listed derived / delegated / guarded convergence loops). NOT decided: the remaining "
     "planting / harvest year arithmetic itself (numeric).")
 
 L = frozenset
@@ -849,4 +849,6 @@ def run(chk, prog, tier):
     rule_j(chk, prog)
     rule_k(chk, prog)
     season_flag_guards(chk, prog, "C07.l")
+    from ._loops import loop_variants
+    chk.floor("C07.m", loop_variants(chk, prog, "C07.m"), 18, "while loops of the package classified by their reason to stop")
     chk.exhaustive = True
